@@ -2781,6 +2781,10 @@ coefficient_ensure_capacity(const lp_polynomial_context_t* ctx, coefficient_t* C
       }
       C->value.rec.capacity  = capacity;
       C->value.rec.size = capacity;
+    } else if (capacity > C->value.rec.size) {
+      // Enough storage, but the polynomial has shrunk: the coefficients beyond
+      // size are zero, make them part of the polynomial again
+      C->value.rec.size = capacity;
     }
     break;
   }
